@@ -1,4 +1,5 @@
 """C06 — state-vector sync complete/monotone/idempotent: structural clauses."""
+import re
 from ylib import facts as F
 from .common import *  # noqa
 
@@ -146,6 +147,110 @@ def rule_f(R, ctx):
     R.ob("C06.f", fn, "both-cases", kinds == {"known-client", "unknown-client"}, "cases found: %s" % sorted(kinds))
 
 
+def _clock_of(fn, op):
+    """if the operand is the start clock of a block (Block::clock_start(b), BlockSlice::clock_start(b) or b.id().clock): root of b."""
+    d = mir_def(fn, op)
+    if d and d[0] == "call" and re.search(r"::clock_start$", F.strip_generics(d[1].name)) and d[1].args:
+        return mir_root(fn, d[1].args[0])
+    r = mir_root(fn, op)
+    if r[0] == "place":
+        import json as _json
+        try:
+            pl = _json.loads(r[1])
+        except Exception:
+            return None
+        pr = [x for x in pl.get("p", []) if x != "*"]
+        if pr and isinstance(pr[-1], str) and pr[-1].endswith("ID.clock") and len(pr) == 1:
+            d = mir_def(fn, {"c": pl["l"]})
+            if d and d[0] == "call" and re.search(r"::(id|clock_start)$", F.strip_generics(d[1].name)) and d[1].args:
+                return mir_root(fn, d[1].args[0])
+    return None
+
+
+def rule_g(R, ctx, rid="C06.g", only=None):
+    Y = ctx.yrs
+    R.rule(rid, "R-PROV first-block offset: in the writers of a client's section of an update (Store::write_blocks_from, "
+                "Update::encode_diff) the start clock announced after write_client equals the clock of the first written block "
+                "plus the offset trimmed from that same block — announced = clock(first) + offset, with `first` the block whose "
+                "slice is trimmed and encoded first (the reader numbers the blocks of a section consecutively from the announced "
+                "clock, so any disagreement shifts every id of the section)")
+    n = 0
+    for path in ("yrs::store::Store::write_blocks_from", "yrs::update::Update::encode_diff"):
+        if only and path not in only:
+            continue
+        fn = Y.fn(path)
+        cfg = fn.cfg()
+        wcs = fn.calls_to("yrs::updates::encoder::Encoder::write_client")
+        R.floor(rid, "write_client in %s" % path.rsplit("::", 1)[-1], len(wcs), 1)
+        for wc in wcs:
+            # the announced clock: first write_var dominated by write_client in the same loop round
+            ann = None
+            b = wc.target
+            for _ in range(6):
+                t = fn.blocks[b]["t"]
+                if "call" in t:
+                    cs = F.CallSite(fn, b, t)
+                    if re.search(r"::write_var$", F.strip_generics(cs.name)):
+                        ann = cs
+                        break
+                    b = cs.target
+                elif "goto" in t:
+                    b = t["goto"]
+                else:
+                    break
+                if b is None:
+                    break
+            if ann is None:
+                R.ob(rid, fn, "announced-clock", False, "no write_var directly after write_client")
+                continue
+            # the first block: a trim_start / encode_with_offset with a non-constant offset dominated by the announcement
+            offs = []
+            for cs in fn.calls():
+                nm = F.strip_generics(cs.name)
+                if cs.bb != ann.bb and cfg.dominates(ann.bb, cs.bb):
+                    if nm.endswith("BlockSlice::trim_start") and len(cs.args) == 2 and mir_root(fn, cs.args[1])[0] != "const":
+                        # receiver: slice local; its definition: as_slice(first)
+                        d = mir_def(fn, cs.args[0])
+                        first = mir_root(fn, d[1].args[0]) if d and d[0] == "call" and d[1].args and re.search(r"::as_slice$", F.strip_generics(d[1].name)) else None
+                        offs.append((cs, cs.args[1], first, mir_root(fn, cs.args[0])))
+                    if nm.endswith("Block::encode_with_offset") and len(cs.args) == 3 and mir_root(fn, cs.args[2])[0] != "const":
+                        offs.append((cs, cs.args[2], mir_root(fn, cs.args[0]), None))
+            if len(offs) != 1:
+                R.ob(rid, fn, "first-block", False, "expected exactly one offset-taking write of the first block after the announced clock, found %d" % len(offs), ann.loc())
+                continue
+            cs, off, first, slice_root = offs[0]
+            n += 1
+            A = ann.args[1]
+            ok = False
+            why = ""
+            # form 1: offset = announced - clock(first)
+            dif = mir_difference(fn, off)
+            if dif:
+                x, y = dif
+                cf = _clock_of(fn, y)
+                ok = mir_root(fn, x) == mir_root(fn, A) and cf is not None and cf == first
+                why = "offset = <announced> - clock(first): minuend is the announced clock: %s; subtrahend is the clock of the trimmed block: %s" % (
+                    mir_root(fn, x) == mir_root(fn, A), cf is not None and cf == first)
+            # form 2: announced = clock(first) + offset
+            sm = mir_sum(fn, A)
+            if not ok and sm:
+                for x, y in (sm, sm[::-1]):
+                    cf = _clock_of(fn, x)
+                    if cf is not None and cf == first and mir_root(fn, y) == mir_root(fn, off):
+                        ok = True
+                        why = "announced = clock(first) + offset with the same block and the same offset"
+                if not ok:
+                    why = "announced clock is a sum but not clock(<first written block>) + <its offset>"
+            if not dif and not sm:
+                why = "neither `offset = announced - clock(first)` nor `announced = clock(first) + offset` could be established"
+            R.ob(rid, fn, "announced=clock(first)+offset", ok, why, ann.loc())
+            if slice_root is not None:
+                encs = [c for c in fn.calls() if F.strip_generics(c.name).endswith("BlockSlice::encode") and c.args
+                        and mir_root(fn, c.args[0]) == slice_root and cfg.dominates(cs.bb, c.bb)]
+                R.ob(rid, fn, "trimmed-slice-encoded", len(encs) == 1, "the trimmed slice is the one encoded next: %d encode call(s) on it" % len(encs), cs.loc())
+    R.floor(rid, "section writers with an offset first block", n, 1 if only else 2)
+
+
 def check(ctx, R):
     from . import wire_rules
     R.run("C06.a", wire_rules.c06_a, ctx)
@@ -154,4 +259,5 @@ def check(ctx, R):
     R.run("C06.d", rule_d, ctx)
     R.run("C06.e", rule_e, ctx)
     R.run("C06.f", rule_f, ctx)
+    R.run("C06.g", rule_g, ctx)
     return {}
